@@ -1,21 +1,30 @@
 (** C23 — Stack growth runs the callback with room to spare and restores bookkeeping.
     Statements only. [exec c p s]: the bookkeeping model of [maybe_grow_with] running the program
     tree [p] (positioned and nested grow calls, panics, catches, probes, deep recursion) in context
-    [c] (plain thread / coroutine) from state [s]; [run_C23 c stack p]: the events of a whole run. *)
+    [c] (plain thread / coroutine) from state [s]; [run_C23 c stack p]: the events of a whole run.
+    [gd]: what the decision deducts for the guard page ([GUARD], one page, in the code as it is;
+    [0] before the repair of finding red_zone_counts_guard_page, [old_run_C23]). *)
 From OCV Require Import Base.Prelude Misc.StackGrow Misc.StackGrowOracle Misc.StackGrowProofs.
 Open Scope Z_scope.
 
 (** For every program tree and every state: after it returns or unwinds (anything but a memory
     fault), the list the code keeps, the segments in use and the stack pointer are as before. *)
-Theorem C23_bookkeeping_restored : forall c p s o s' ev,
-  exec c p s = (o, s', ev) -> o <> OFault ->
+Theorem C23_bookkeeping_restored : forall gd c p s o s' ev,
+  exec gd c p s = (o, s', ev) -> o <> OFault ->
   m_rec s' = m_rec s /\ m_grown s' = m_grown s /\ m_sp s' = m_sp s.
 Proof. exact bookkeeping_restored. Qed.
 
 (** On well-formed trees: every call grows exactly when the stack really in use lacks the red
-    zone (a plain thread that has not grown always grows), the coroutine reports exactly the
-    segments in use and the callback runs inside the last one, a fresh segment has the red zone,
-    every call returns its callback's value, recursions end, and the run ends without a fault. *)
+    zone of usable bytes (a plain thread that has not grown always grows), the coroutine reports
+    exactly the segments in use and the callback runs inside the last one, every callback - moved to
+    a fresh segment or run in place - has the red zone (guard page not counted), every call returns
+    its callback's value, recursions end with every level having had its room, and the run ends
+    without a fault. *)
+Theorem C23_holds : forall c stack p,
+  wf_C23 c stack p = true -> ok_C23 c (run_C23 c stack p) = true.
+Proof. exact holds. Qed.
+
+(** the same without the room clause on the path that does not grow (corollary, kept by name) *)
 Theorem C23_bookkeeping_ok : forall c stack p,
   wf_C23 c stack p = true -> ok_weak_C23 c (run_C23 c stack p) = true.
 Proof. exact bookkeeping_ok. Qed.
@@ -27,28 +36,24 @@ Theorem C23_value_returned : forall c stack p b,
   wf_C23 c stack p = true -> In (ERet b) (run_C23 c stack p) -> b = true.
 Proof. exact value_returned. Qed.
 
-(** every callback runs inside the last segment the coroutine reports; one that was moved to a
-    fresh segment has the whole red zone (guard page not counted) *)
+(** every callback runs inside the last segment the coroutine reports and has the whole red zone
+    (guard page not counted), on a fresh segment or in place *)
 Theorem C23_room : forall c stack p d en grew len inb r,
   wf_C23 c stack p = true -> In (EGrow d en grew len inb r) (run_C23 c stack p) ->
-  inb = true /\ (grew = true -> r = true).
-Proof. exact room_on_fresh_segment. Qed.
+  inb = true /\ r = true.
+Proof. exact room_everywhere. Qed.
 
-(** "At least the red zone available" also on the path that does not grow: refuted by up to one
-    page (the check counts the guard page) ... *)
-Theorem C23_refuted_red_zone_counts_guard_page :
-  exists c stack p, wf_C23 c stack p = true /\ ok_C23 c (run_C23 c stack p) = false.
-Proof. exact refuted_red_zone_counts_guard_page. Qed.
-
-(** ... and true whenever no call is made with between rz and rz + one page left. *)
-Theorem C23_holds_outside : forall c stack p,
-  wf_C23 c stack p = true -> no_defect_C23 c stack p = true -> ok_C23 c (run_C23 c stack p) = true.
-Proof. exact holds_outside. Qed.
+(** before the repair of finding red_zone_counts_guard_page (the decision counted the guard page) "at least the red zone
+    available" failed by up to one page on the path that does not grow *)
+Theorem C23_refuted_before_repair :
+  exists c stack p, wf_C23 c stack p = true /\ ok_C23 c (old_run_C23 c stack p) = false.
+Proof. exact refuted_before_repair. Qed.
 
 Example C23_nonvacuous :
   let p := PCatch (PGrow 32768 131072 1 (PProbe (PPos 16384 (PGrow 32768 131072 2 (PProbe PPanic) PNil) PNil)) PNil)
              (PProbe (PPos 49152 (PGrow 32768 131072 3 PNil PNil) (PRec 50 4096 32768 131072 (PProbe PNil)))) in
-  wf_C23 CThread 262144 p = true /\ no_defect_C23 CThread 262144 p = true
+  let w := PPos (32768 + 2048) (PGrow 32768 131072 1 PNil PNil) (PPos (32768 + 4096) (PGrow 32768 131072 2 PNil PNil) PNil) in
+  wf_C23 CThread 262144 p = true
   /\ run_C23 CThread 262144 p =
        [EGrow 0 false true (-1) true true; EProbe 1 (-1); EGrow 1 false true (-1) true true; EProbe 2 (-1);
         ECaught; EProbe 0 (-1); EGrow 0 false true (-1) true true; ERet true; ERec true true; EProbe 0 (-1); EEnd]
@@ -56,13 +61,17 @@ Example C23_nonvacuous :
        [EGrow 0 true false 1 true true; EProbe 0 1; EGrow 0 false true 2 true true; EProbe 1 2;
         ECaught; EProbe 0 1; EGrow 0 true false 1 true true; ERet true; ERec true true; EProbe 0 1; EEnd]
   /\ ok_C23 CCo (run_C23 CCo 262144 p) = true
-  /\ ok_C23 CThread [EGrow 0 false true (-1) true true; ECaught; EGrow 0 false false (-1) true true; ERet true; EEnd] = false.
+  /\ ok_C23 CThread [EGrow 0 false true (-1) true true; ECaught; EGrow 0 false false (-1) true true; ERet true; EEnd] = false
+  /\ wf_C23 CCo 131072 w = true
+  /\ run_C23 CCo 131072 w = [EGrow 0 false true 2 true true; ERet true; EGrow 0 true false 1 true true; ERet true; EEnd]
+  /\ old_run_C23 CCo 131072 w = [EGrow 0 false false 1 true false; ERet true; EGrow 0 true false 1 true true; ERet true; EEnd]
+  /\ ok_C23 CCo (old_run_C23 CCo 131072 w) = false.
 Proof. repeat split; vm_compute; reflexivity. Qed.
 
 Print Assumptions C23_bookkeeping_restored.
+Print Assumptions C23_holds.
 Print Assumptions C23_bookkeeping_ok.
 Print Assumptions C23_no_fault.
 Print Assumptions C23_value_returned.
 Print Assumptions C23_room.
-Print Assumptions C23_refuted_red_zone_counts_guard_page.
-Print Assumptions C23_holds_outside.
+Print Assumptions C23_refuted_before_repair.
